@@ -720,3 +720,54 @@ func c19CollName(info *types.Info, e ast.Expr) string {
 	}
 	return "a slice"
 }
+
+// C19.l — rows are signed and unbounded in the dynamic list (items scrolled above the viewport have negative
+// origins, a selection far below has a row beyond 65535): an expression that contains a child's origin is
+// never converted to an unsigned or narrower integer type (the conversion wraps, and the comparison that
+// decides whether the selected item must be shifted into view is then made on a wrapped value).
+func init() { registerExtra("C19", c19SignedRows) }
+
+func c19SignedRows(c *Ctx) {
+	c.Clauses = append(c.Clauses, "C19.l vxfw/list: an expression containing a child's origin row/column is never converted to an unsigned or narrower integer type")
+	pkgName := "vxfw/list"
+	n := 0
+	for _, fi := range c.P.FuncsIn(pkgName) {
+		if fi.Decl.Body == nil {
+			continue
+		}
+		info := fi.Pkg.TypesInfo
+		ast.Inspect(fi.Decl.Body, func(m ast.Node) bool {
+			call, ok := m.(*ast.CallExpr)
+			if !ok || len(call.Args) != 1 {
+				return true
+			}
+			to, conv := c19IsConversion(info, call)
+			if !conv {
+				return true
+			}
+			tb, ok := to.Underlying().(*types.Basic)
+			if !ok || tb.Info()&types.IsInteger == 0 {
+				return true
+			}
+			mentionsOrigin := containsNode(call.Args[0], func(x ast.Node) bool {
+				se, ok := x.(*ast.SelectorExpr)
+				if !ok || (se.Sel.Name != "Row" && se.Sel.Name != "Col") {
+					return false
+				}
+				in, ok := unparen(se.X).(*ast.SelectorExpr)
+				return ok && in.Sel.Name == "Origin"
+			})
+			if !mentionsOrigin {
+				return true
+			}
+			n++
+			narrow := tb.Info()&types.IsUnsigned != 0 || tb.Kind() == types.Int8 || tb.Kind() == types.Int16 || tb.Kind() == types.Int32
+			c.check(!narrow, "C19.l", fi.Name+"/"+types.ExprString(call)+" keeps a child's origin signed and wide", call.Pos(),
+				"conversion to a signed 64-bit type", "a child's origin (negative for items scrolled above the viewport, beyond 65535 after a long jump) is converted to "+tb.Name()+": the value wraps, so the test that decides whether the selected item has to be shifted into view is made on a wrong row")
+			return true
+		})
+	}
+	if n == 0 {
+		c.okTrivial("C19.l", pkgName+"/no conversion of a child's origin", 0, "no integer conversion in the package has an operand that contains Origin.Row / Origin.Col")
+	}
+}
